@@ -177,6 +177,8 @@ def cfrac_to_complex(z) -> complex:
 def write_replay(pid: str, data: dict) -> Path:
     d = VERIF / "replays"
     d.mkdir(exist_ok=True)
+    data = dict(data)
+    data.setdefault("hashseed", os.environ.get("PYTHONHASHSEED", "0"))
     h = digest(data)[:12]
     p = d / f"{pid}-{h}.json"
     p.write_text(json.dumps(canon(data), indent=1, sort_keys=True))
